@@ -11,6 +11,8 @@ use std::cmp::Ordering;
 
 #[derive(Clone, Debug)]
 pub struct Shape {
+    /// which string has a two-unit last character: 0 = none, 1 = the word, 2+j = candidate j
+    pub wide: usize,
     pub word: usize,
     pub cands: Vec<usize>,
     pub n: usize,
@@ -44,6 +46,20 @@ fn cutoffs(word: usize, cands: &[usize]) -> Vec<u32> {
     v.sort();
     v.dedup();
     v
+}
+
+/// reference LCS over character tokens (a token = 1 or 2 units), decided by the solver
+fn ref_lcs_tokens(a: &[&SymTxt], b: &[&SymTxt]) -> usize {
+    let (n, m) = (a.len(), b.len());
+    let mut t = vec![vec![0usize; m + 1]; n + 1];
+    for i in (0..n).rev() {
+        for j in (0..m).rev() {
+            let (x, y) = (a[i].chars(), b[j].chars());
+            let e = x.len() == y.len() && x.iter().zip(y).all(|(p, q)| p.0 == q.0 || engine::decide(engine::Atom::eq(p.0, q.0)));
+            t[i][j] = if e { t[i + 1][j + 1] + 1 } else { t[i + 1][j].max(t[i][j + 1]) };
+        }
+    }
+    t[0][0]
 }
 
 fn txt_eq(a: &[Sym], b: &[Sym]) -> F {
@@ -89,7 +105,19 @@ impl Prop for C18 {
                         continue;
                     }
                     for c in cutoffs(word, cands) {
-                        v.push(Shape { word, cands: cands.clone(), n, cutoff_bits: c });
+                        v.push(Shape { wide: 0, word, cands: cands.clone(), n, cutoff_bits: c });
+                        // variants in which one string ends in a character that occupies two
+                        // units (string length in units != number of characters)
+                        if n >= 1 && total <= 6 {
+                            if word > 0 {
+                                v.push(Shape { wide: 1, word, cands: cands.clone(), n, cutoff_bits: c });
+                            }
+                            for (j, l) in cands.iter().enumerate() {
+                                if *l > 0 {
+                                    v.push(Shape { wide: 2 + j, word, cands: cands.clone(), n, cutoff_bits: c });
+                                }
+                            }
+                        }
                     }
                 }
             }
@@ -100,15 +128,31 @@ impl Prop for C18 {
         reset_hooks();
         symtxt::reset();
         let cutoff = f32::from_bits(s.cutoff_bits);
-        let word: Vec<Sym> = (0..s.word).map(|_| symtxt::fresh_char(Class::Ord)).collect();
-        let cands: Vec<Vec<Sym>> = s.cands.iter().map(|&l| (0..l).map(|_| symtxt::fresh_char(Class::Ord)).collect()).collect();
+        // a string of `l` characters; if `wide`, its last character occupies two units
+        let mk = |l: usize, wide: bool| -> Vec<Sym> {
+            let mut v = vec![];
+            for i in 0..l {
+                if wide && i + 1 == l {
+                    v.push(symtxt::fresh_char(Class::Lead));
+                    v.push(symtxt::fresh_char(Class::Cont));
+                } else {
+                    v.push(symtxt::fresh_char(Class::Ord));
+                }
+            }
+            v
+        };
+        let word: Vec<Sym> = mk(s.word, s.wide == 1);
+        let cands: Vec<Vec<Sym>> = s.cands.iter().enumerate().map(|(j, &l)| mk(l, s.wide == 2 + j)).collect();
+        use similar::DiffableStr;
+        let wtok: Vec<&SymTxt> = SymTxt::new(&word).tokenize_chars();
         let cand_refs: Vec<&SymTxt> = cands.iter().map(|c| SymTxt::new(c)).collect();
         let got: Vec<&SymTxt> = get_close_matches(SymTxt::new(&word), &cand_refs, s.n, cutoff);
         // reference: exhaustive ranking
         let mut scored: Vec<(f32, usize)> = vec![];
         for (i, c) in cands.iter().enumerate() {
-            let l = ref_lcs(&word, c);
-            let r = ratio(l, word.len(), c.len());
+            let ctok: Vec<&SymTxt> = SymTxt::new(c).tokenize_chars();
+            let l = ref_lcs_tokens(&wtok, &ctok);
+            let r = ratio(l, wtok.len(), ctok.len());
             if r >= cutoff {
                 scored.push((r, i));
             }
@@ -157,10 +201,11 @@ impl Prop for C18 {
         (s.word + s.cands.iter().sum::<usize>()) as u64
     }
     fn shape_json(&self, s: &Shape) -> Value {
-        json!({"word_len": s.word, "candidate_lens": s.cands, "n": s.n, "cutoff_bits": s.cutoff_bits, "cutoff": f32::from_bits(s.cutoff_bits)})
+        json!({"wide_last_char_in": s.wide, "word_len": s.word, "candidate_lens": s.cands, "n": s.n, "cutoff_bits": s.cutoff_bits, "cutoff": f32::from_bits(s.cutoff_bits)})
     }
     fn shape_from(&self, v: &Value) -> Shape {
         Shape {
+            wide: v["wide_last_char_in"].as_u64().unwrap_or(0) as usize,
             word: v["word_len"].as_u64().unwrap() as usize,
             cands: v["candidate_lens"].as_array().unwrap().iter().map(|x| x.as_u64().unwrap() as usize).collect(),
             n: v["n"].as_u64().unwrap() as usize,
@@ -169,8 +214,8 @@ impl Prop for C18 {
     }
     fn describe(&self, s: &Shape, ints: &[i64], _b: &[bool]) -> Value {
         let mut it = ints.iter();
-        let word: Vec<i64> = it.by_ref().take(s.word).cloned().collect();
-        let cands: Vec<Vec<i64>> = s.cands.iter().map(|&l| it.by_ref().take(l).cloned().collect()).collect();
+        let word: Vec<i64> = it.by_ref().take(s.word + (s.wide == 1 && s.word > 0) as usize).cloned().collect();
+        let cands: Vec<Vec<i64>> = s.cands.iter().enumerate().map(|(j, &l)| it.by_ref().take(l + (s.wide == 2 + j && l > 0) as usize).cloned().collect()).collect();
         json!({"word_chars": word, "candidates_chars": cands, "n": s.n, "cutoff": f32::from_bits(s.cutoff_bits)})
     }
     fn meta(&self, tier: Tier) -> Meta {
@@ -181,7 +226,7 @@ impl Prop for C18 {
                 "similar::TextDiff::{from_slices, ratio}, similar::get_diff_ratio, capture_diff_deadline(Myers) + IdentifyDistinct not reached (<100 tokens)",
                 "Ord/Eq/Hash of the string type (SymTxt, decided by z3)",
             ],
-            bounds: format!("word of 0..={l} characters, 0..={c} candidates of 0..={l} characters each (empty and duplicate candidates included; all characters symbolic), n in 0..=3 (at most {t} characters in word and candidates together), cutoff in the finite set of f32 values at which the result can change: every attainable ratio 2k/(a+b), each also one ulp below and above, plus 0, 0.5 and 1", l = match tier { Tier::Quick => 3, Tier::Thorough => 3 }, c = match tier { Tier::Quick => 2, Tier::Thorough => 3 }, t = match tier { Tier::Quick => 7, Tier::Thorough => 9 }),
+            bounds: format!("word of 0..={l} characters, 0..={c} candidates of 0..={l} characters each (empty and duplicate candidates included; all characters symbolic; for up to 6 characters in total also variants in which the last character of the word or of one candidate occupies two units, so that string length and character count differ), n in 0..=3 (at most {t} characters in word and candidates together), cutoff in the finite set of f32 values at which the result can change: every attainable ratio 2k/(a+b), each also one ulp below and above, plus 0, 0.5 and 1", l = match tier { Tier::Quick => 3, Tier::Thorough => 3 }, c = match tier { Tier::Quick => 2, Tier::Thorough => 3 }, t = match tier { Tier::Quick => 7, Tier::Thorough => 9 }),
             outside: "longer words / more candidates; cutoffs outside [0,1]; NaN; the f32 quantisation regime of very long strings; str/[u8] tokenize_chars (C06)".into(),
             assumptions: vec!["the reference ranking is computed by the harness from a solver-decided LCS and the same f32 formula".into(), "among candidates with equal content the order is unspecified: entries are compared by content, and each returned reference must be a distinct candidate passed in".into()],
             required_witnesses: vec!["paths_with_a_candidate_below_the_cutoff", "paths_with_two_or_more_matches", "paths_with_a_ratio_tie", "paths_with_a_ratio_exactly_at_the_cutoff", "paths_truncated_by_n"],
